@@ -4,6 +4,7 @@ import GwModel.Point
 import GwModel.FindPtsInsert
 import GwModel.FindPtsStitch
 import GwModel.FindPtsFamily
+import GwModel.PlanCover
 /-! # C01 — Federated execution is transparent: gateway data equals monolith data
 
 Proved here (model `Tr`, GwModel/Trans): for the core query class (fields, aliases, nested selections,
@@ -118,5 +119,26 @@ theorem a_step_and_its_follow_ups (acc : Ins.J) (ip : List Fp.RPt) (o P : Ins.KV
       ∀ p ∈ l, ∃ o', Fp.walk (.obj P) p = some (.obj o') ∧
         Fp.walk final (ip ++ p) = some (.obj (Ins.mergeK o' (payload (ip ++ p)))) :=
   Fp.parent_then_children acc ip o P hPs hip i0 infos hfresh paths hfind hc payload l hsub hnd
+
+/-- **nothing the client asked for is lost by planning** (planner model `Pl`, the whole of plan.go, tied by L1.plan;
+    documents without named fragments — inline fragments typed or untyped, nested, with directives, are covered):
+    every leaf path of the operation, i.e. the response keys from the root down to a field without sub-selection, is
+    found, below the insertion point of some step of the plan, as a leaf path of that step's selection.  For every
+    routing table, priority list, wrapper nesting and fuel. -/
+theorem no_requested_field_is_lost_by_planning {env : Pl.Env} {fuel : Nat} {operation : String} {sels : List Pl.Sel}
+    {steps : List Pl.Step} (h : Pl.planOperation env fuel operation sels = .ok steps) (hns : Pl.noSpreadL sels = true) :
+    ∀ x ∈ Pl.leafPathsL sels, ∃ s ∈ steps, ∃ q ∈ Pl.leafPathsL s.sel, x = s.ip ++ q :=
+  Pl.planOperation_covers h hns
+
+/-- non-vacuity: `{ me { firstName ... { lastName } } }` with `lastName` elsewhere: the path me/lastName is asked
+    by the step at insertion point [me] -/
+example :
+    let env : Pl.Env := { routes := [("Query.me", ["A"]), ("User.firstName", ["A"]), ("User.lastName", ["B"])],
+                          configured := [], internal := "gw", planFrags := [] }
+    let sels : List Pl.Sel := [.field "me" "me" "" [] [] "User"
+      [.field "firstName" "firstName" "" [] [] "String" [], .inline "" [] [.field "lastName" "lastName" "" [] [] "String" []]]]
+    Pl.noSpreadL sels = true ∧ Pl.leafPathsL sels = [["me", "firstName"], ["me", "lastName"]] ∧
+    (Pl.planOperation env 10 "query" sels).toOption.map (fun steps => steps.map fun s => (s.ip, Pl.leafPathsL s.sel)) =
+      some [([], [["id"]]), ([], [["me", "firstName"], ["me", "id"]]), (["me"], [["lastName"]])] := by decide
 
 end Props.C01
